@@ -86,6 +86,7 @@ type HopSpec struct {
 	DelayUs int             `json:"delay_us,omitempty"` // 0 = default
 	Silent  bool            `json:"silent,omitempty"`
 	LostReply bool          `json:"lost_reply,omitempty"` // the probe reached the responder but its reply was lost
+	AtTarget bool           `json:"at_target,omitempty"` // the target itself answers this probe (destination form by default)
 	Copies  int             `json:"copies,omitempty"`  // extra identical copies, each 1ms later
 	Perturb *simnet.Perturb `json:"perturb,omitempty"`
 	Tag     string          `json:"tag,omitempty"`
@@ -336,8 +337,8 @@ func (s *Script) OnProbe(n *simnet.Net, sink *simnet.Sink, p *refcodec.Packet, r
 	s.Seen[sink.ID][t] = p
 	target := sc.Target()
 	var out []simnet.Reply
-	atDest := sc.Dest > 0 && t >= sc.Dest
 	hs, has := sc.Hops[t]
+	atDest := (sc.Dest > 0 && t >= sc.Dest) || (has && hs.AtTarget)
 	initSeq := p.Seq - uint32(t) // sack: localInitSeq
 	s.initSeq[sink.ID] = initSeq
 	if atDest && vi.Kind == "sack" && !(has && hs.Silent) {
